@@ -70,3 +70,70 @@ theorem readInt_toBE (k n : Nat) (r : Bytes) (h : n < 256 ^ k) :
 
 end Bf3
 end Bec2Verif
+
+namespace Bec2Verif
+
+theorem fromBE_lt (a : Bytes) : fromBE a < 256 ^ a.length := by
+  induction a using List.rec with
+  | nil => simp [fromBE]
+  | cons x xs ih =>
+    have h := fromBE_append [x] xs
+    simp only [List.singleton_append] at h
+    rw [h]
+    have hx : fromBE [x] = x.toNat := by simp [fromBE]
+    have hxl := UInt8.toNat_lt x
+    rw [hx, List.length_cons, Nat.pow_succ]
+    have hp : 0 < 256 ^ xs.length := Nat.pow_pos (by omega)
+    calc x.toNat * 256 ^ xs.length + fromBE xs
+        < x.toNat * 256 ^ xs.length + 256 ^ xs.length := by omega
+      _ = (x.toNat + 1) * 256 ^ xs.length := by rw [Nat.add_mul, Nat.one_mul]
+      _ ≤ 256 * 256 ^ xs.length := Nat.mul_le_mul_right _ (by omega)
+      _ = 256 ^ xs.length * 256 := Nat.mul_comm _ _
+
+theorem toBE_append_byte (k n : Nat) : toBE (k + 1) n = toBE k (n / 256) ++ [UInt8.ofNat (n % 256)] := rfl
+
+theorem toBE_fromBE (a : Bytes) : toBE a.length (fromBE a) = a := by
+  -- induct from the right: a = init ++ [last]
+  induction h : a.length generalizing a with
+  | zero =>
+    have : a = [] := List.length_eq_zero_iff.mp h
+    subst this; rfl
+  | succ n ih =>
+    have hne : a ≠ [] := by intro h0; subst h0; simp at h
+    obtain ⟨init, last, rfl⟩ : ∃ init last, a = init ++ [last] :=
+      ⟨a.dropLast, a.getLast hne, (List.dropLast_concat_getLast hne).symm⟩
+    have hlen : init.length = n := by simp at h; exact h
+    rw [toBE_append_byte, fromBE_append]
+    have h1 : fromBE [last] = last.toNat := by simp [fromBE]
+    have hl := UInt8.toNat_lt last
+    simp only [List.length_singleton, Nat.pow_one, h1]
+    have hd : (fromBE init * 256 + last.toNat) / 256 = fromBE init := by omega
+    have hm : (fromBE init * 256 + last.toNat) % 256 = last.toNat := by omega
+    rw [hd, hm]
+    rw [ih init hlen]
+    simp
+
+namespace Bf3
+
+theorem take_ok {n : Nat} {bs a r : Bytes} (h : take n bs = .ok (a, r)) : bs = a ++ r ∧ a.length = n := by
+  unfold take at h
+  split at h
+  · rename_i hle
+    injection h with h
+    simp only [Prod.mk.injEq] at h
+    obtain ⟨rfl, rfl⟩ := h
+    exact ⟨(List.take_append_drop n bs).symm, by simp; omega⟩
+  · cases h
+
+theorem readInt_ok {n : Nat} {bs r : Bytes} {v : Nat} (h : readInt n bs = .ok (v, r)) :
+    bs = toBE n v ++ r ∧ v < 256 ^ n := by
+  simp only [readInt, Except.bind_eq_ok] at h
+  obtain ⟨⟨a, r'⟩, ht, hp⟩ := h
+  simp only [pure, Except.pure, Except.ok.injEq, Prod.mk.injEq] at hp
+  obtain ⟨rfl, rfl⟩ := hp
+  obtain ⟨rfl, hlen⟩ := take_ok ht
+  subst hlen
+  exact ⟨by rw [toBE_fromBE], fromBE_lt a⟩
+
+end Bf3
+end Bec2Verif
